@@ -14,7 +14,7 @@ class Ob:
     """One obligation = one Kani proof harness (decided by CBMC + CaDiCaL)."""
 
     def __init__(self, group, harness, expect="pass", timeout=300, stubbing=False, env=None,
-                 desc="", bounds="", covers=0, role=None, features=None, cfgs=None, dbg=True):
+                 desc="", bounds="", covers=0, role=None, features=None, cfgs=None, dbg=True, cbmc_args=None, exists=False, native=None):
         self.group = group          # harness crate under /verif/harness
         self.harness = harness      # fully qualified harness name (module::fn)
         self.expect = expect        # "pass" | "fail" (deliberately false twin: must be refuted)
@@ -28,6 +28,9 @@ class Ob:
         self.features = features or []
         self.cfgs = cfgs or []      # --cfg flags via RUSTFLAGS
         self.dbg = dbg              # debug assertions (dev profile) on/off
+        self.cbmc_args = cbmc_args or []
+        self.exists = exists        # existential obligation: an unsatisfied cover goal IS the violation (solver: no input reaches it)
+        self.native = native        # (test file, test name) under harness/<group>/tests: native probe used as replay for exists-obligations
 
     def cfg_key(self):
         s = json.dumps([self.group, sorted(self.features), sorted(self.cfgs), self.dbg, self.stubbing,
@@ -78,6 +81,8 @@ def _cmd_for(ob, tdir, extra=None):
     cmd += ["--target-dir", tdir, "--harness", ob.harness, "--exact"]
     if extra:
         cmd += extra
+    if ob.cbmc_args:
+        cmd += ["--cbmc-args"] + ob.cbmc_args
     return cmd
 
 
@@ -135,6 +140,9 @@ def parse_output(text, res):
         res.status = "ERROR"
         tail = text.strip().splitlines()[-15:]
         res.note = " | ".join(tail)[-800:]
+    if res.status == "FAIL" and not res.failed:
+        res.status = "ERROR"
+        res.note = "CBMC reported failure without any failed check (crash / killed / unsupported construct)"
     if res.ob.expect == "panic" and res.status == "FAIL":
         real = [f for f in res.failed if not f.get("cover")]
         marked = [f for f in real if MARKER in f["desc"]]
@@ -159,6 +167,11 @@ def parse_output(text, res):
             res.note = "unwinding bound too small: " + unw[0]["loc"]
         elif not real and "unsupported" in text and res.checks == 0:
             res.status = "ERROR"
+    if res.status == "PASS" and res.ob.exists and res.covers_total != res.covers_sat:
+        res.status = "FAIL"
+        res.note = "%d of %d existential goals unreachable for every input" % (res.covers_total - res.covers_sat, res.covers_total)
+        for f in res.failed:
+            f.pop("cover", None)
     if res.status == "PASS":
         # vacuity: every cover witness must be satisfied
         if res.covers_total != res.covers_sat:
